@@ -245,6 +245,8 @@ fn generate_c(seed: u64, quick: bool) -> Value {
         }
     }
     json!({
+        // the declaration is made by a library, which passes on everything it received
+        "through_library": rng.chance(1, 4),
         "decl2": decl2,
         "seed": seed,
         "hash_seeds": hash_seeds,
@@ -294,15 +296,37 @@ fn lib_name_parts(key: &str) -> Vec<String> {
         .collect()
 }
 
+/// the text the program evaluates, and the wrapper library when the declaration under test is
+/// made by a library instead of the program
+fn program_and_wrapper(case: &Value, libs: &BTreeMap<String, Vec<String>>) -> (String, Option<String>) {
+    let decl = case["decl"].as_str().unwrap_or("").to_string();
+    if !case["through_library"].as_bool().unwrap_or(false) {
+        return (decl, None);
+    }
+    let names: Vec<String> = parse_one(&decl)
+        .ok()
+        .and_then(|d| declaration_bindings(&d, libs))
+        .map(|b| b.keys().cloned().collect())
+        .unwrap_or_default();
+    let wrapper = format!("(define-library (lt wrap) {} (export {}))", decl, names.join(" "));
+    ("(import (lt wrap))".to_string(), Some(wrapper))
+}
+
 type Observation = Result<Vec<(String, String)>, String>;
 
 fn observe_once(case: &Value, dir: Option<std::path::PathBuf>) -> Observation {
     let delivery = case["delivery"].as_str().unwrap_or("native").to_string();
     let libs: BTreeMap<String, Vec<String>> =
         serde_json::from_value(case["libs"].clone()).unwrap_or_default();
-    let decl = case["decl"].as_str().unwrap_or("").to_string();
+    let (decl, wrapper) = program_and_wrapper(case, &libs);
     let r = guarded(|| {
         let mut it = Interpreter::<f32>::default();
+        if let (Some(w), true) = (&wrapper, delivery != "file") {
+            match LibraryFactory::from_char_stream(&library_name_of(&["lt", "wrap"]), w.chars()) {
+                Ok(f) => it.register_library_factory(f),
+                Err(e) => return Err(format!("wrapper library text rejected: {}", e)),
+            }
+        }
         for (key, exports) in &libs {
             let parts = lib_name_parts(key);
             let parts_ref: Vec<&str> = parts.iter().map(|s| s.as_str()).collect();
@@ -409,7 +433,14 @@ fn execute_c(case: &Value) -> RunResult {
         },
         None => None,
     };
-    let model_result = m.eval_top(&decl).and_then(|v| match &second {
+    let (program_text, wrapper) = program_and_wrapper(case, &libs);
+    if let Some(w) = &wrapper {
+        m.world.insert("(lt wrap)".into(), LibEntry::Def(parse_one(w).unwrap()));
+        res.count("probe.declaration_made_by_a_library");
+        res.log.push(format!("wrapper: {}", w));
+    }
+    let program_decl = parse_one(&program_text).unwrap();
+    let model_result = m.eval_top(&program_decl).and_then(|v| match &second {
         Some(d) => m.eval_top(d),
         None => Ok(v),
     });
@@ -447,6 +478,10 @@ fn execute_c(case: &Value) -> RunResult {
             let _ = std::fs::create_dir_all(&p);
             p.push(format!("{}.sld", parts[parts.len() - 1]));
             std::fs::write(&p, lib_text(key, exports)).expect("write library file");
+        }
+        if let Some(w) = &wrapper {
+            let _ = std::fs::create_dir_all(d.join("lt"));
+            std::fs::write(d.join("lt").join("wrap.sld"), w).expect("write wrapper library file");
         }
         dir = Some(d);
     }
@@ -505,7 +540,7 @@ fn execute_c(case: &Value) -> RunResult {
     };
     let maxd = v[1..].iter().map(depth_of).max().unwrap_or(0);
     res.nontrivial = maxd >= 2 || v.len() > 2;
-    res.sched_hash = fnv64(format!("{}|{}|{}", decl_text, case["decl2"], delivery).as_bytes());
+    res.sched_hash = fnv64(format!("{}|{}|{}|{}", decl_text, case["decl2"], delivery, case["through_library"]).as_bytes());
     res.state_hashes.push(fnv64(format!("{:?}", expected).as_bytes()));
     res.count(&format!("delivery.{}", delivery));
     res.count(&format!("depth.{}", maxd));
